@@ -2,7 +2,7 @@
    Statements only; proofs are in Proofs/C01.v and Proofs/C01_delim.v. *)
 From Coq Require Import ZArith List Bool Arith.
 From Coq Require Import String.
-From BNP Require Import Base.Prims Model.C01 Proofs.C01 Proofs.C01_delim Proofs.C01_lines Proofs.C01_mfasta Gen.C01 Bridge.C01.
+From BNP Require Import Base.Prims Model.C01 Proofs.C01 Proofs.C01_delim Proofs.C01_lines Proofs.C01_mfasta Proofs.C01_fuel Gen.C01 Bridge.C01.
 Import ListNotations.
 
 (* T1 (every format, both reader modes, the repaired and the pinned code): whatever the chunk size,
@@ -76,6 +76,24 @@ Theorem C01_mfasta_chunks_exact :
         /\ Forall (fun c => ends_nl c = true /\ nthZ c 0 = 62%Z) chunks).
 Proof. exact mfasta_chunks_exact. Qed.
 Print Assumptions C01_mfasta_chunks_exact.
+
+(* T6 (termination of the reader, pinned AND repaired code): the fuel the model gives the chunk loop and the
+   accumulation loop is never exhausted, for EVERY file, format (n-line records with any n, delimited, wrapped FASTA),
+   mode and chunk size (0 included): each delivered non-final chunk strictly decreases
+   (bytes not yet read) + (bytes carried over), so every run ends in one of the three completed outcomes.  The
+   theorems above are therefore never true "because the model ran out of fuel". *)
+Theorem C01_never_out_of_fuel :
+  forall fixed f m k file, read_chunks fixed f m k file <> OutOfFuel.
+Proof. exact read_chunks_terminates. Qed.
+Print Assumptions C01_never_out_of_fuel.
+
+Theorem C01_completes :
+  forall fixed f m k file,
+    (exists chunks dropped app lines, read_chunks fixed f m k file = Done chunks dropped app lines)
+    \/ (exists line chunks, read_chunks fixed f m k file = FormatError line chunks)
+    \/ (exists chunks, read_chunks fixed f m k file = OtherError chunks).
+Proof. exact read_chunks_completes. Qed.
+Print Assumptions C01_completes.
 
 (* Source tie: the decision rules and arithmetic of the reader regenerated from /repo on this run (Gen/C01.v, by
    translate/gen_c01.py from parser.py, one_line_buffer.py, fastq_buffer.py, delimited_buffers.py) are the ones the
